@@ -200,7 +200,7 @@ func H_C09_arraykey() {
 // C09.traverse — next visits every present key exactly once, also when visited fields are cleared
 // or overwritten during the traversal.
 //
-//verif:harness prop=C09 tier=quick qparams=nkeys:3 tparams=nkeys:4 bounds="tables built from nkeys (3 quick / 4 thorough) stores with keys from {array integers 1..4 (symbolic), 1-byte symbolic strings, booleans, hash-part numbers 0, -1, 2.5}, optionally followed by deleting one of them; during the traversal every visited field is cleared / overwritten / left alone, or only the j-th visited field is cleared (by choice per table)"
+//verif:harness prop=C09 tier=quick qparams=nkeys:3 tparams=nkeys:4 tmaxpaths=900000 bounds="tables built from nkeys (3 quick / 4 thorough) stores with keys from {array integers 1..4 (symbolic), 1-byte symbolic strings, booleans, hash-part numbers 0, -1, 2.5}, optionally followed by deleting one of them; during the traversal every visited field is cleared / overwritten / left alone, or only the j-th visited field is cleared (by choice per table)"
 func H_C09_traverse() {
 	L := newL(Options{}, BaseLibName)
 	tb := L.NewTable()
